@@ -276,7 +276,12 @@ func Run(run *core.Run) {
 		return
 	}
 	P := rw.SeenPaths()
-	run.Event("restore calls=%d paths=%d err=%v", rw.Calls, len(P), rerr != nil)
+	if rerr != nil {
+		// how many lookups precede a failing one is Go's map order: not part of the event log
+		run.Event("restore err=true")
+	} else {
+		run.Event("restore calls=%d paths=%d err=false", rw.Calls, len(P))
+	}
 	if rerr != nil && !errors.Is(rerr, resolver.ErrPackageNotFound) && !errors.Is(rerr, faults.ErrStubNotFound) {
 		// not a resolver failure (go/format refusing an ill-formed result, e.g. a guessed package
 		// name such as "bar-go"): outside C17, the restore itself succeeded and legitimately
